@@ -139,7 +139,7 @@ class R:
     """Result of evaluating one case."""
 
     __slots__ = ("nontrivial", "outcome", "viol", "states", "transitions",
-                 "validated", "evals", "state_keys", "notes", "tags")
+                 "validated", "evals", "state_keys", "notes", "tags", "counters")
 
     def __init__(self, nontrivial: bool = True, outcome: Any = "ok"):
         self.nontrivial = nontrivial
@@ -152,6 +152,7 @@ class R:
         self.state_keys: Optional[list] = None  # extra canonical state keys
         self.notes: list[str] = []
         self.tags: list[str] = []  # vacuity tags ("lint-exit-1", ...)
+        self.counters: dict[str, int] = {}
 
     def violation(self, signature: str, message: str, **extra: Any) -> None:
         self.viol.append({"signature": signature, "message": message, **extra})
@@ -173,6 +174,7 @@ class Stats:
         self.samples: list = []
         self.harness_errors: list[str] = []
         self.notes: Counter = Counter()
+        self.counters: Counter = Counter()
         self.caps_hit: list[str] = []
         self.extra: dict[str, Any] = {}
 
@@ -194,6 +196,7 @@ class Stats:
                 self.samples.append(s)
         self.harness_errors.extend(o.harness_errors[:5])
         self.notes.update(o.notes)
+        self.counters.update(o.counters)
         for c in o.caps_hit:
             if c not in self.caps_hit:
                 self.caps_hit.append(c)
@@ -220,6 +223,8 @@ class Stats:
             self.tags[t] += 1
         for n in r.notes:
             self.notes[n] += 1
+        if r.counters:
+            self.counters.update(r.counters)
         for v in r.viol:
             self.viol_count += 1
             self.viol_by_sig[v["signature"]] += 1
@@ -399,12 +404,24 @@ def finish(prop: str, level: str, module: str, tier: str, seed: int, st: Stats,
     for s in known_seen:
         print(f"KNOWN-FINDING: property={prop} {known[s]['what_fails']} [signature={s}; {st.viol_by_sig[s]} case(s)]")
     exit_code = EXIT_OK
+    printed = 0
     for s in new_sigs:
         if s in confirmed:
             v, path = confirmed[s]
-            print(f"VIOLATION property={prop} replay={path}")
-            print(f"  signature={s} cases={st.viol_by_sig[s]}: {v['message'][:600]}")
             exit_code = EXIT_VIOLATION
+            printed += 1
+            if printed <= 30:
+                print(f"VIOLATION property={prop} replay={path}")
+                print(f"  signature={s} cases={st.viol_by_sig[s]}: {v['message'][:600]}")
+    if printed > 30:
+        print(f"  ... and {printed - 30} more distinct violation signatures (see evidence file)")
+    unconfirmed = [s for s in new_sigs if s not in confirmed and not any(s in b for b in broken)]
+    for s in unconfirmed:
+        # more signatures than were retained for confirmation: still a failure
+        exit_code = EXIT_VIOLATION
+        if printed <= 30:
+            print(f"VIOLATION property={prop} replay={REPLAY_DIR / prop} (signature={s}, {st.viol_by_sig[s]} case(s); no replay file retained)")
+            printed += 1
     if st.caps_hit:
         exhaustive = False
     vac = None
@@ -430,6 +447,7 @@ def finish(prop: str, level: str, module: str, tier: str, seed: int, st: Stats,
         "outcome_histogram": dict(st.outcomes.most_common(12)),
         "tags": dict(st.tags),
         "notes": dict(st.notes.most_common(20)),
+        "counters": dict(st.counters),
         "known_findings_seen": {s: st.viol_by_sig[s] for s in known_seen},
         "new_violation_signatures": {s: st.viol_by_sig[s] for s in new_sigs},
         "caps_hit": st.caps_hit,
